@@ -10,7 +10,7 @@ run against the repository's own tests of the mutated package ('repo_tests': pas
 Results: mutation/results.jsonl (one line per mutant; finished mutants are skipped on a re-run),
 mutation/SUMMARY.md. Nothing is written to /repo, /verif/replays or /verif/evidence.
 """
-import json, os, subprocess, sys, threading, queue, time, hashlib, shutil
+import json, os, signal, subprocess, sys, threading, queue, time, hashlib, shutil
 
 ROOT = os.path.dirname(os.path.abspath(__file__))
 MUTGEN = os.path.join(ROOT, ".build", "mutgen")
@@ -43,11 +43,17 @@ lock = threading.Lock()
 
 
 def sh(cmd, cwd=None, timeout=None, env=None):
+    p = subprocess.Popen(cmd, cwd=cwd, env=env or ENV, stdout=subprocess.PIPE, stderr=subprocess.STDOUT, text=True, start_new_session=True)
     try:
-        r = subprocess.run(cmd, cwd=cwd, env=env or ENV, stdout=subprocess.PIPE, stderr=subprocess.STDOUT, text=True, timeout=timeout)
-        return r.returncode, r.stdout
-    except subprocess.TimeoutExpired as e:
-        return -9, (e.stdout or b"").decode("utf8", "replace") if isinstance(e.stdout, bytes) else (e.stdout or "")
+        out, _ = p.communicate(timeout=timeout)
+        return p.returncode, out
+    except subprocess.TimeoutExpired:
+        try:
+            os.killpg(p.pid, signal.SIGKILL)
+        except Exception:
+            pass
+        out, _ = p.communicate()
+        return -9, out or ""
 
 
 def worker(wid, jobs, group_checks):
